@@ -19,4 +19,14 @@ CHECKS["C11"] = {
     "note": TRUST + "dpkt is replaced by a spec-level parser (tlv/models/dpkt_model.py), compared with real dpkt on every replayed/validated frame. "
             "UDP checksum field 0 is outside the claim. Segment lengths are bounded as listed in the evidence.",
 }
+CHECKS["C17"] = {
+    "technique": "symbolic execution of parse_frames and every frame class: one loop iteration on arbitrary bytes (inductive step), whole loop on all short strings, and a reference encoder with symbolic 62-bit fields and symbolic var-int widths",
+    "text": "z3 decides, for one iteration of the real parse_frames loop on arbitrary bytes of the stated length, that the iteration "
+            "raises or consumes >= 1 byte and yields data that are slices of the payload (so the loop runs at most len(payload) times); "
+            "the whole loop is explored on every byte string up to the stated length; and for every RFC 9000/9221 frame type, every "
+            "var-int width combination within the bound and all field values, the parsed frame equals the encoded one and consumes "
+            "exactly its bytes whatever follows.",
+    "note": TRUST + "The continuation slice of the loop is intercepted to observe one iteration; sequences follow because the loop is stateless. "
+            "Consecutive PADDING frames count as one. Bounds in the evidence file.",
+}
 NOT_APPLICABLE = {}
